@@ -23,6 +23,8 @@ pub struct Profile {
     pub resources: bool,
     pub fallible_ctor: bool,
     pub async_resource_func: bool,
+    /// `async func` in the WIT (futures/streams are governed by `async_`)
+    pub async_funcs: bool,
     pub named_iface_import: bool, // `import foo: iface;` (same interface under several names)
     pub case_named_like_variant: bool,
     pub stream_of_used_type_in_world: bool,
@@ -42,6 +44,19 @@ pub struct Profile {
     pub borrows: bool,
     /// borrow handles (directly or through named types) inside fixed-length lists
     pub borrow_in_fixed_list: bool,
+    /// `borrow<r>` may occur (at any depth) under `list`, `map` or a fixed-length list
+    pub borrow_in_list: bool,
+    /// a parameter may be named `<record field name><digits>` or `<temporary stem><digits>` (`ptr0`)
+    pub param_like_tmp: bool,
+    /// type names / case names (variant, enum, flags) to stay clear of
+    pub avoid_type_names: Vec<&'static str>,
+    pub avoid_case_names: Vec<&'static str>,
+    /// future/stream payloads may mention named types
+    pub payload_named_types: bool,
+    /// further adversarial names for one backend
+    pub extra_names: Vec<&'static str>,
+    /// resource function names to stay clear of
+    pub avoid_resource_func_names: Vec<&'static str>,
     /// `type x = borrow<r>;`
     pub named_handle_alias: bool,
     /// async functions get at most 4 scalar parameters (no indirect async params)
@@ -50,6 +65,8 @@ pub struct Profile {
     pub avoid_param_names: Vec<&'static str>,
     /// a world item (inline interface, named import, function, type) may be named like the world
     pub item_named_like_world: bool,
+    /// a named (inline) world item may be named like a package namespace
+    pub item_named_like_namespace: bool,
     /// follow type definitions by structurally equal / near-equal clones
     pub near_equal_types: bool,
 }
@@ -64,6 +81,7 @@ impl Profile {
             resources: true,
             fallible_ctor: true,
             async_resource_func: true,
+            async_funcs: true,
             named_iface_import: true,
             case_named_like_variant: true,
             stream_of_used_type_in_world: true,
@@ -80,10 +98,18 @@ impl Profile {
             world_level_items: true,
             borrows: true,
             borrow_in_fixed_list: true,
+            borrow_in_list: true,
+            param_like_tmp: true,
+            avoid_resource_func_names: vec![],
+            extra_names: vec![],
+            payload_named_types: true,
+            avoid_type_names: vec![],
+            avoid_case_names: vec![],
             named_handle_alias: true,
             async_funcs_small_params: false,
             avoid_param_names: vec![],
             item_named_like_world: true,
+            item_named_like_namespace: true,
             near_equal_types: false,
         }
     }
@@ -286,6 +312,8 @@ struct Gen<'a, 'b> {
     doc_counter: u32,
     /// nesting depth inside fixed-length list elements
     in_fixed: u32,
+    /// nesting depth inside list / map / fixed-length list elements
+    in_loop: u32,
     /// self-contained type definitions seen so far (near-equal mode)
     pool: Vec<(TypeDef, Known)>,
 }
@@ -368,6 +396,8 @@ impl<'a, 'b> Gen<'a, 'b> {
                 Pos::Result | Pos::StreamPayload => !k.has_borrow,
             })
             .filter(|k| !(k.has_borrow && self.in_fixed > 0 && !p.borrow_in_fixed_list))
+            .filter(|k| !(k.has_borrow && self.in_loop > 0 && !p.borrow_in_list))
+            .filter(|_| p.payload_named_types || !matches!(pos, Pos::StreamPayload))
             .collect();
         if !usable.is_empty() {
             choices.extend([1, 1, 1, 1]);
@@ -388,7 +418,7 @@ impl<'a, 'b> Gen<'a, 'b> {
             choices.push(10);
         }
         let resources: Vec<&Known> = scope.iter().filter(|k| k.is_resource).collect();
-        if p.borrows && !resources.is_empty() && matches!(pos, Pos::Param | Pos::TypeDef) && (self.in_fixed == 0 || p.borrow_in_fixed_list) {
+        if p.borrows && !resources.is_empty() && matches!(pos, Pos::Param | Pos::TypeDef) && (self.in_fixed == 0 || p.borrow_in_fixed_list) && (self.in_loop == 0 || p.borrow_in_list) {
             choices.push(11);
         }
         let c = choices[self.t.pick(choices.len())];
@@ -410,7 +440,10 @@ impl<'a, 'b> Gen<'a, 'b> {
             }
             2 => {
                 facts.heapy = true;
-                Ty::List(Box::new(self.ty(scope, pos, depth + 1, facts)))
+                self.in_loop += 1;
+                let e = self.ty(scope, pos, depth + 1, facts);
+                self.in_loop -= 1;
+                Ty::List(Box::new(e))
             }
             3 => Ty::Option(Box::new(self.ty(scope, pos, depth + 1, facts))),
             4 => {
@@ -426,13 +459,18 @@ impl<'a, 'b> Gen<'a, 'b> {
                 self.features.insert("map");
                 facts.heapy = true;
                 let k = self.key_ty();
-                Ty::Map(Box::new(k), Box::new(self.ty(scope, pos, depth + 1, facts)))
+                self.in_loop += 1;
+                let v = self.ty(scope, pos, depth + 1, facts);
+                self.in_loop -= 1;
+                Ty::Map(Box::new(k), Box::new(v))
             }
             7 => {
                 self.features.insert("fixed-length-list");
                 let n = 1 + self.t.pick(4) as u32;
                 self.in_fixed += 1;
+                self.in_loop += 1;
                 let e = self.ty(scope, pos, depth + 1, facts);
+                self.in_loop -= 1;
                 self.in_fixed -= 1;
                 if facts.has_borrow {
                     self.features.insert("borrow-in-fixed-length-list");
@@ -476,9 +514,14 @@ impl<'a, 'b> Gen<'a, 'b> {
     }
 
     fn func(&mut self, scope: &[Known], kind: FuncKind, used: &mut BTreeSet<String>, self_res: Option<&str>) -> Func {
-        let name = if kind == FuncKind::Constructor { String::new() } else { self.names.fresh(self.t, used, self.p.adversarial_names) };
+        let mut name = if kind == FuncKind::Constructor { String::new() } else { self.names.fresh(self.t, used, self.p.adversarial_names) };
+        if self_res.is_some() && self.p.avoid_resource_func_names.iter().any(|a| *a == name) {
+            name = format!("{name}-f");
+            used.insert(name.clone());
+        }
         let docs = self.docs();
         let is_async = self.p.async_
+            && self.p.async_funcs
             && kind != FuncKind::Constructor
             && (self_res.is_none() || self.p.async_resource_func)
             && self.t.chance(1, 4);
@@ -506,6 +549,15 @@ impl<'a, 'b> Gen<'a, 'b> {
         let nparams = if small { nparams.min(4) } else { nparams };
         for _ in 0..nparams {
             let mut n = self.names.fresh(self.t, &mut pnames, self.p.adversarial_names);
+            if !self.p.param_like_tmp && n.ends_with(|c: char| c.is_ascii_digit()) {
+                const STEMS: &[&str] = &["l", "len", "result", "base", "vec", "ptr", "layout", "v", "t", "map", "idx", "handle", "elem", "bytes", "array", "witimport"];
+                let norm = |s: &str| s.replace('-', "").to_ascii_lowercase();
+                let stem = norm(n.trim_end_matches(|c: char| c.is_ascii_digit()));
+                if self.names.all.contains(&stem) || STEMS.contains(&stem.as_str()) {
+                    n = format!("{n}-p");
+                    pnames.insert(n.clone());
+                }
+            }
             if self.p.avoid_param_names.iter().any(|a| *a == n) {
                 n = format!("{n}-p");
                 pnames.insert(n.clone());
@@ -539,8 +591,23 @@ impl<'a, 'b> Gen<'a, 'b> {
         Func { name, docs, kind, is_async, params, result }
     }
 
+    /// a fresh name that is not in `avoid` (renamed by suffix, so the tape stays aligned)
+    fn fresh_avoiding(&mut self, used: &mut BTreeSet<String>, avoid: &[&'static str]) -> String {
+        let mut n = self.names.fresh(self.t, used, self.p.adversarial_names);
+        if avoid.iter().any(|a| *a == n) {
+            n = format!("{n}-n");
+            while used.contains(&n) {
+                n.push('n');
+            }
+            used.insert(n.clone());
+        }
+        n
+    }
+
     fn typedef(&mut self, scope: &mut Vec<Known>, used: &mut BTreeSet<String>) -> TypeDef {
-        let name = self.names.fresh(self.t, used, self.p.adversarial_names);
+        let avoid_t = self.p.avoid_type_names.clone();
+        let avoid_c = self.p.avoid_case_names.clone();
+        let name = self.fresh_avoiding(used, &avoid_t);
         let docs = self.docs();
         let mut facts = TyFacts::default();
         let mut is_resource = false;
@@ -572,7 +639,7 @@ impl<'a, 'b> Gen<'a, 'b> {
                         cnames.insert(name.clone());
                         name.clone()
                     } else {
-                        self.names.fresh(self.t, &mut cnames, self.p.adversarial_names)
+                        self.fresh_avoiding(&mut cnames, &avoid_c)
                     };
                     let t = if self.t.chance(2, 3) { Some(self.ty(scope, Pos::TypeDef, 0, &mut facts)) } else { None };
                     let d = self.docs();
@@ -583,7 +650,7 @@ impl<'a, 'b> Gen<'a, 'b> {
             2 => {
                 let n = 1 + self.t.pick(6);
                 let mut cnames = BTreeSet::new();
-                DefKind::Enum((0..n).map(|_| self.names.fresh(self.t, &mut cnames, self.p.adversarial_names)).collect())
+                DefKind::Enum((0..n).map(|_| self.fresh_avoiding(&mut cnames, &avoid_c)).collect())
             }
             3 => {
                 const SIZES: [usize; 8] = [1, 2, 7, 8, 9, 16, 17, 32];
@@ -593,7 +660,7 @@ impl<'a, 'b> Gen<'a, 'b> {
                     self.features.insert("flags-over-32");
                 }
                 let mut cnames = BTreeSet::new();
-                DefKind::Flags((0..n).map(|_| self.names.fresh(self.t, &mut cnames, self.p.adversarial_names)).collect())
+                DefKind::Flags((0..n).map(|_| self.fresh_avoiding(&mut cnames, &avoid_c)).collect())
             }
             4 => {
                 let mut t = self.ty(scope, Pos::TypeDef, 0, &mut facts);
@@ -743,7 +810,7 @@ pub fn generate(tape: &[u16], profile: &Profile) -> Wit {
     let (world_tape, tape) = tape.split_at(k);
     let mut t_world = Tape::new(world_tape);
     let mut t = Tape::new(tape);
-    let mut g = Gen { t: &mut t, p: profile, names: names::NamePool::default(), features: BTreeSet::new(), doc_counter: 0, in_fixed: 0, pool: vec![] };
+    let mut g = Gen { t: &mut t, p: profile, names: names::NamePool { extra: profile.extra_names.clone(), ..Default::default() }, features: BTreeSet::new(), doc_counter: 0, in_fixed: 0, in_loop: 0, pool: vec![] };
     let npkgs = if profile.multi_package { 1 + g.t.pick(3) } else { 1 };
     let mut packages: Vec<Package> = vec![];
     // exported facts per (pkg index, iface name)
@@ -853,7 +920,7 @@ pub fn generate(tape: &[u16], profile: &Profile) -> Wit {
         built.push((pi, pkg));
     }
     // the world lives in the main package
-    let mut g = Gen { t: &mut t_world, p: profile, names: g.names, features: g.features, doc_counter: g.doc_counter, in_fixed: 0, pool: g.pool };
+    let mut g = Gen { t: &mut t_world, p: profile, names: g.names, features: g.features, doc_counter: g.doc_counter, in_fixed: 0, in_loop: 0, pool: g.pool };
     let main_idx = built.iter().position(|(i, _)| *i == 0).unwrap();
     // worlds and interfaces of a package share one namespace
     let mut main_names: BTreeSet<String> = built[main_idx].1.ifaces.iter().map(|i| i.name.clone()).collect();
@@ -863,6 +930,11 @@ pub fn generate(tape: &[u16], profile: &Profile) -> Wit {
     let mut world_names: BTreeSet<String> = BTreeSet::new();
     if !profile.item_named_like_world {
         world_names.insert(wname.clone());
+    }
+    if !profile.item_named_like_namespace {
+        for (_, p) in &built {
+            world_names.insert(p.ns.clone());
+        }
     }
     let mut imported: BTreeSet<String> = BTreeSet::new();
     let mut exported_if: BTreeSet<String> = BTreeSet::new();
